@@ -20,7 +20,7 @@ def decl_specs(tier):
     for names, w in alphabet.declarations(tier, comps=comps):
         specs.append({'names': list(names), 'wrapper': w})
     # class options
-    for c in ('i2', 'sns', 'rs', 'r1', 'o1'):
+    for c in ('i2', 'sns', 'rs', 'rsl', 'srs', 'rsd', 'ss', 'os', 'r1', 'o1'):
         specs.append({'names': [c, 'i2'], 'wrapper': 'a', 'opts': {'endianness': 'little'}})
     for c in ('i1', 'dn', 'sn', 'sr', 'r1', 'm0', 'o1', 'em', 'su', 'rvec'):
         for al in (2, 4):
@@ -59,6 +59,18 @@ def check_one(dc, st, raw, r, start):
         return
     if ir.extract(u[1], dc.P, dc.pkts) != ok.pv:
         st.inc('disagree')
+        # the values are C05/C06/C08's business - but a purely sequential declaration (no positioning, no
+        # alignment) consumes every byte of [start, end), so the round trip can be judged without them
+        if not (dc.feats & {'pos', 'abs', 'class_align', 'elem_aligned', 'em'}):
+            try:
+                end = ea.impl_end(dc.K, raw, start)
+            except Exception:
+                return
+            out = ea.impl_pack(u[1])
+            if isinstance(end, int) and start <= end <= len(raw) and (out[0] != 'ok' or out[1] != raw[start:end]):
+                call = '%s.unpack(%r%s).pack()' % (dc.P['name'], raw, (', %d' % start) if start else '')
+                st.violate('sequential round trip differs', '%s -> %r but the parse consumed %r | %s' % (call, out[1], raw[start:end], dc.src.replace('\n', '; ')),
+                           dc.case(raw=raw, start=start), dc.snippet('print(%s)' % call))
         return
     if any(lo < start for lo, hi, _ in ok.consumed):
         st.inc('oos')
